@@ -171,6 +171,9 @@ fn state_hash(w: &crate::sched::World) -> u64 {
 }
 
 pub const STEP_TIMEOUT: Duration = Duration::from_secs(5);
+/// An execution that takes more scheduling steps than this is spinning (a retry loop that yields at
+/// every iteration): treated like a hang.
+pub const MAX_STEPS: usize = 200_000;
 
 /// Runs `program` once under the schedule given by `prefix` (choice indices at the decisions,
 /// default 0 afterwards). The caller must have called `init_process`.
@@ -299,6 +302,10 @@ pub fn run_once(program: &Program, prefix: &[u32]) -> Execution {
             enabled[0]
         };
         steps.push((chosen, w.actors[chosen].pending.clone().unwrap()));
+        if steps.len() > MAX_STEPS {
+            outcome = Outcome::Hang;
+            break;
+        }
         running = Some(chosen);
         s.grant(w, chosen);
     }
